@@ -27,6 +27,11 @@ RemoteWrite(t) == /\ IF W \/ ~Guard("write_needs_pw")
                      ELSE UNCHANGED val /\ Out("RemoteWrite", t, <<>>, "ignored", "none", 0)
                   /\ UNCHANGED subscribed
 RemoteRead     == /\ Out("RemoteRead", "none", <<>>, IF R THEN val ELSE "status", "none", 0) /\ UNCHANGED <<val, subscribed>>
+\* the application supplies the value through an installed getter (OnValueGet): the read returns it and it is the stored
+\* value from then on (characteristic.go:109-114); a cell without read permission is not asked
+GetterRead(t)  == /\ IF R THEN val' = t /\ Out("GetterRead", t, <<>>, t, "none", 0)
+                          ELSE UNCHANGED val /\ Out("GetterRead", t, <<>>, "status", "none", 0)
+                  /\ UNCHANGED subscribed
 AccRead        == /\ Out("AccRead", "none", <<>>, IF R THEN val ELSE "novalue", "none", 0) /\ UNCHANGED <<val, subscribed>>
 Sub            == /\ subscribed' = (E \/ ~Guard("subscribe_needs_ev"))
                   /\ Out("Sub", "none", <<>>, IF subscribed' THEN "ok" ELSE "status", "none", 0) /\ UNCHANGED val
@@ -42,15 +47,15 @@ Shape(ids) == [http |-> IF \A i \in 1..Len(ids) : EntryOK(ids[i]) THEN 200 ELSE 
 ReadList(ids)  == /\ Out("ReadList", "none", ids, "shape", "none", 0) /\ UNCHANGED <<val, subscribed>>
 
 Lists == UNION {[1..n -> Ids] : n \in 1..MaxList}
-Next == \/ \E t \in Tok : LocalSet(t) \/ RemoteWrite(t)
+Next == \/ \E t \in Tok : LocalSet(t) \/ RemoteWrite(t) \/ GetterRead(t)
         \/ RemoteRead \/ AccRead \/ Sub \/ Unsub
         \/ \E ids \in Lists : ReadList(ids)
 Spec == Init /\ [][Next]_vars
 
 \* ---- C09 / C11 on the design
-ReadsSeeLastWrite == last.a \in {"RemoteRead", "AccRead"} /\ R => last.r = val
+ReadsSeeLastWrite == last.a \in {"RemoteRead", "AccRead", "GetterRead"} /\ R => last.r = val
 NoWriteWithoutPw == [][ (last'.a = "RemoteWrite" /\ ~W) => (val' = val /\ last'.cb = "none") ]_vars
-NoValueWithoutPr == last.a \in {"RemoteRead", "AccRead"} /\ ~R => last.r \in {"status", "novalue"}
+NoValueWithoutPr == last.a \in {"RemoteRead", "AccRead", "GetterRead"} /\ ~R => last.r \in {"status", "novalue"}
 NoEventsWithoutEv == ~E => ~subscribed
 ShapeOK(ids) == LET s == Shape(ids) IN
                   /\ Len(s.entries) = Len(ids)
